@@ -7,6 +7,7 @@ from checks import regen
 def run(ctx):
     q = ctx.tier == "quick"
     regen.gen_g711()                       # T1: tables of the working tree -> Gen_G711.v
+    regen.gen_adpcm()                      # T1: IMA / MS ADPCM tables -> Gen_Adpcm.v
     vlib.proof_step(ctx)                   # Properties_C20.v (search: the K ties below find the inputs)
     seed = ctx.seed
     # K ties
@@ -26,6 +27,14 @@ def run(ctx):
     vlib.k_tie(ctx, "float_model_vs_hardware", "%s %d %d" % (h, seed, 5000 if q else 300000), m,
                "Fp.v (round_fmt, fmul32/64, psf_lrint, conversions, comparisons) against the hardware on boundary-directed + PRNG patterns",
                key="fp")
+    h = vlib.cc_harness("kern_adpcm", ["kern_adpcm.c"], kind="asan")
+    m = vlib.build_model("adpcm", "XAdpcm.v", "driver_adpcm.ml")
+    vlib.k_tie(ctx, "adpcm_block_decoders", "%s %d %d" % (h, seed, 1500 if q else 60000), m,
+               "WAV IMA ADPCM, AIFC ima4 and WAV MS ADPCM blocks decoded through the public API (one block per file, 1 and 2 channels, block sizes 8 .. 512): header step index "
+               "0 / 82..88 / above the table / PRNG, predictors at the int16 extremes, code patterns all +max, all -max, alternating, zero, PRNG; MS: predictor bytes in and out "
+               "of range, scale factors 0, 1, 16, 0x7FFF, 0x8000, 0xFFFF; every decoded short against the extracted model", key="adpcm")
+    ctx.trusted += ["IMA ADPCM step / index tables and the decoder recurrence transcribed from the IMA Digital Audio Focus recommendation into Adpcm.v (ref_step_table, ref_index_table, ima_diff)",
+                    "Microsoft ADPCM is modelled as coded (prediction by arithmetic shift, scale factor and history in 16-bit cells): tied by K, with range theorems, not compared with an independent definition"]
     ctx.trusted += ["G.711 definition transcribed from the Recommendation's segment tables into G711.v (ulaw_expand, ulaw_compress, alaw_expand, alaw_compress)",
                     "16-bit input is reduced to G.711's sign-magnitude input by truncating the magnitude (|s|/4, |s|/16), as every table driven implementation does",
                     "libm frexp/floor/fmod/pow exact on the values used by the portable serialisers",
